@@ -27,9 +27,6 @@ structure Params (No Nk hB hO hR hK outSize kerSize bmLeafCount bmSize : Nat) : 
   bmc : bmLeafCount = Dsg.expectedChunks No
   bms : bmSize = mmr (Dsg.expectedChunks No)
 
-def St.Par (s : St) (No Nk : Nat) : Prop :=
-  Params No Nk s.hB s.hO s.hR s.hK s.outSize s.kerSize s.bmLeafCount s.bmSize
-
 theorem chunks_pos (No : Nat) (h : 1 ≤ No) : 1 ≤ Dsg.expectedChunks No := by
   unfold Dsg.expectedChunks; omega
 
@@ -38,7 +35,9 @@ theorem chunks_small (No : Nat) (h : No < 2 ^ 62) : Dsg.expectedChunks No < 2 ^ 
 
 /-- the invariant of every reachable state -/
 structure Inv (No Nk : Nat) (s : St) : Prop where
-  par : s.Par No Nk
+  /-- (spelled out field by field: the kernel compares the arguments one by one, and never has to
+  compare two states) -/
+  par : Params No Nk s.hB s.hO s.hR s.hK s.outSize s.kerSize s.bmLeafCount s.bmSize
   bm : TreeOk false s.hB (Dsg.expectedChunks No) s.bm
   /-- no cached bitmap segment carries redundant chunks (assumption on the deliveries, see
   `redundant_bitmap_chunk_stalls` for what happens otherwise) -/
@@ -253,7 +252,11 @@ theorem tX (No Nk : Nat) (s : St) (hi : Inv No Nk s) : Inv No Nk s.applyNextSegm
   unfold St.applyNextSegments
   rw [hnb]
   cases ob with
-  | some k => sorry
+  | some k =>
+    simp only [St.applyNextWith]
+    cases hr : removeFirstIdx s.bm.cache k with
+    | none => exact ⟨par, bm, clean, out, rp, ker, noMis, fin⟩
+    | some pr => sorry
   | none => sorry
 
 end GV.Deseg
